@@ -891,6 +891,8 @@ class Engine:
             return [((op in ('!=', '>')), st)]       # address of a modelled object is not null
         if isinstance(y, Obj) and isinstance(x, Lin) and x.is_const() and x.c == 0:
             return [((op in ('!=', '<')), st)]
+        if isinstance(x, Obj) and isinstance(y, Obj) and x.name == y.name and op in ('==', '!='):
+            return [(op == '==', st)]             # the same modelled object
         if not (isinstance(x, Lin) and isinstance(y, Lin)):
             a, b = st, st.copy()
             a.trail.append('cond@%s true' % node.get('l'))
